@@ -57,3 +57,15 @@ package css_parser
 // Two trackers are compatible only if they stand for the same set of units and neither is mixed.
 //@ lemma isSafeWith_sound C12: forall a unitSafetyTracker, b unitSafetyTracker :: a.isSafeWith(b) ==>
 //@     a.status == b.status && a.status != unitUnsafeMixed && (a.status == unitUnsafeSingle ==> a.unit == b.unit)
+
+// ----------------------------------------------------------------------------------------------
+// C12: calc() simplification. CSS Values and Units 4, 10.2 (type checking): "at a / sub-expression, check
+// that the right side has type <number>". The minifier's own deviation ("divide instead of multiply if the
+// reciprocal is shorter") creates Invert nodes; every Invert node it creates must therefore wrap a plain
+// number, never a dimension or percentage.
+//@ func (*calcProduct).partiallySimplify
+//@   arith int
+//@   prop C12
+//@   opt scenario calc_reciprocal_dimension
+//@   site invert-only-plain-numbers: store calcTermWithOp.data new calcInvert requires
+//@       is(value.(*calcInvert).term.data, *calcNumeric) && value.(*calcInvert).term.data.(*calcNumeric).unit == ""
